@@ -260,6 +260,35 @@ def epsalg_check(terms_float, value, table, table_in, unit=1.0):
     return ('ok' if nontrivial else 'trivial'), '', (err / allow if allow > 0 else 0.0)
 
 
+DEA_SCALES = [150, 190, -150, -300]      # 2^190 ~ 1.6e57, 2^-300 ~ 5e-91: far from 1, still inside the range of doubles
+
+
+def work_dea_scaled(chunk):
+    """Dea on single-transient model sequences multiplied by exact powers of two: the invariants at every term and the
+    agreement with dea3 at the third term do not depend on the scale (nothing may be measured against a fixed magnitude)"""
+    from numdifftools.extrapolation import Dea
+    acc = fw.Acc()
+    for L, q, a, sexp, limexp in chunk:
+        obj = Dea(limexp=limexp)
+        terms = []
+        for n in range(6):
+            t = float((Fraction(L) + Fraction(a) * Fraction(q) ** n) * Fraction(2) ** sexp)
+            terms.append(t)
+            try:
+                out = obj(t)
+            except Exception as e:      # noqa: BLE001
+                out = e
+            prob = dea_invariants(terms, out, limexp)
+            if prob is None and n == 2 and not has_converged_run(terms):
+                prob = dea3_agreement(terms, out)
+            acc.case(('dea-scaled', L, q, a, sexp, limexp, n), nontrivial=True, cell='dea-scaled/2^%d' % sexp, outcome=prob is None)
+            if prob:
+                acc.violation('C14:Dea:%s:scaled' % prob[0], dict(kind='dea-scaled', L=L, q=q, a=a, sexp=sexp, limexp=limexp, n=n),
+                              'terms (L + a q^n) 2^%d with L=%r a=%r q=%r: %s' % (sexp, L, a, q, prob[1]), rank=n)
+                break
+    return acc
+
+
 def work_epsalg_model(chunk):
     """L + sum a_i q_i^n: all prefixes of length 1..2k+1; at 2k+1 the value must be L."""
     from numdifftools.extrapolation import EpsAlg, Dea
@@ -430,6 +459,8 @@ def run(ctx):
     acc.merge(ctx.pmap(work_dea_long, jobs, chunk=200, length=length))
     # EpsAlg
     acc.merge(ctx.pmap(work_epsalg_model, model_sequences(), chunk=30))
+    acc.merge(ctx.pmap(work_dea_scaled, [(L, qq, a, se, lim) for L in LS for qq in QS for a in AS for se in DEA_SCALES for lim in (3, 6, 50)],
+                       chunk=60))
     tdepth = 5 if q else 7
     acc.merge(ctx.pmap(work_epsalg_tree, list(itertools.product(ALPHABET, repeat=2)), chunk=1, depth=tdepth))
 
@@ -464,6 +495,10 @@ def replay(case):
     from numdifftools.extrapolation import Dea, EpsAlg
     kind = case['kind']
     acc = fw.Acc()
+    if kind == 'dea-scaled':
+        a = work_dea_scaled([(case['L'], case['q'], case['a'], case['sexp'], case['limexp'])])
+        bad = [r['detail'] for k, (n, recs) in a.viol.items() for r in recs]
+        return not bad, '%r -> %s' % (case, bad or 'ok')
     if kind == 'dea':
         seen, stats = set(), dict(transitions=0, merged=0)
         explore_dea(case['limexp'], case['syms'], len(case['syms']), acc, seen, stats)
